@@ -978,20 +978,65 @@ impl<'a> Iso<'a> {
             (x, y) => return Err(mm(Area::Module, "start.presence", format!("start {:?} ↔ {:?}", x, y))),
         }
         self.drain()?;
-        // segments of the output: order-preserving, by trial
-        let mut from = 0u32;
+        // Everything of the output that is still unbound needs a preimage.
+        // First bind what has exactly one possible preimage (repeatedly, since
+        // every binding can disambiguate others), then fall back to first fit.
+        loop {
+            let mut progress = false;
+            for y in 0..b.elems.len() as u32 {
+                if self.elems.rev.contains_key(&y) {
+                    continue;
+                }
+                let c = self.seg_candidates(true, y);
+                if c.len() == 1 {
+                    self.bind_elem(c[0], y, Area::Module, "gc element (unique preimage)")?;
+                    self.drain()?;
+                    progress = true;
+                }
+            }
+            for y in 0..b.datas.len() as u32 {
+                if self.datas.rev.contains_key(&y) {
+                    continue;
+                }
+                let c = self.seg_candidates(false, y);
+                if c.len() == 1 {
+                    self.bind_data(c[0], y, Area::Module, "gc data (unique preimage)")?;
+                    self.drain()?;
+                    progress = true;
+                }
+            }
+            for y in 0..b.n_funcs() {
+                if self.funcs.rev.contains_key(&y) {
+                    continue;
+                }
+                let unbound: Vec<u32> = (0..a.n_funcs()).filter(|x| !self.funcs.fwd.contains_key(x)).collect();
+                let mut cands: Vec<u32> = Vec::new();
+                for x in unbound {
+                    if self.trial_func(x, y).is_ok() {
+                        cands.push(x);
+                        if cands.len() > 1 {
+                            break;
+                        }
+                    }
+                }
+                if cands.len() == 1 {
+                    self.bind_func(cands[0], y, Area::Module, "gc function (unique preimage)")?;
+                    self.drain()?;
+                    progress = true;
+                }
+            }
+            if !progress {
+                break;
+            }
+        }
         for y in 0..b.elems.len() as u32 {
-            if let Some(x) = self.elems.rev.get(&y).copied() {
-                from = from.max(x + 1);
+            if self.elems.rev.contains_key(&y) {
                 continue;
             }
-            let cand = (from..a.elems.len() as u32)
-                .find(|x| !self.elems.fwd.contains_key(x) && self.try_pair(|s| s.bind_elem(*x, y, Area::Module, "gc element order")));
-            match cand {
+            match self.seg_candidates(true, y).first().copied() {
                 Some(x) => {
                     self.bind_elem(x, y, Area::Module, "gc element order")?;
                     self.drain()?;
-                    from = x + 1;
                 }
                 None => {
                     return Err(mm(
@@ -1002,19 +1047,14 @@ impl<'a> Iso<'a> {
                 }
             }
         }
-        let mut from = 0u32;
         for y in 0..b.datas.len() as u32 {
-            if let Some(x) = self.datas.rev.get(&y).copied() {
-                from = from.max(x + 1);
+            if self.datas.rev.contains_key(&y) {
                 continue;
             }
-            let cand = (from..a.datas.len() as u32)
-                .find(|x| !self.datas.fwd.contains_key(x) && self.try_pair(|s| s.bind_data(*x, y, Area::Module, "gc data order")));
-            match cand {
+            match self.seg_candidates(false, y).first().copied() {
                 Some(x) => {
                     self.bind_data(x, y, Area::Module, "gc data order")?;
                     self.drain()?;
-                    from = x + 1;
                 }
                 None => {
                     return Err(mm(
@@ -1196,6 +1236,41 @@ impl<'a> Iso<'a> {
             }
         }
         Ok(())
+    }
+
+    /// input segments that output segment `y` could be the image of: unbound,
+    /// content-equal under the current bindings, and between the preimages of
+    /// its already bound neighbours (segments keep their relative order)
+    fn seg_candidates(&mut self, elem: bool, y: u32) -> Vec<u32> {
+        let (n_in, n_out) = if elem {
+            (self.a.elems.len() as u32, self.b.elems.len() as u32)
+        } else {
+            (self.a.datas.len() as u32, self.b.datas.len() as u32)
+        };
+        let (fwd_has, rev_get): (Vec<bool>, Vec<Option<u32>>) = {
+            let bij = if elem { &self.elems } else { &self.datas };
+            (
+                (0..n_in).map(|x| bij.fwd.contains_key(&x)).collect(),
+                (0..n_out).map(|z| bij.rev.get(&z).copied()).collect(),
+            )
+        };
+        let lo = (0..y).rev().find_map(|z| rev_get[z as usize]).map(|x| x + 1).unwrap_or(0);
+        let hi = (y + 1..n_out).find_map(|z| rev_get[z as usize]).unwrap_or(n_in);
+        let mut out = Vec::new();
+        for x in lo..hi.min(n_in) {
+            if fwd_has[x as usize] {
+                continue;
+            }
+            let ok = if elem {
+                self.try_pair(|s| s.bind_elem(x, y, Area::Module, "trial"))
+            } else {
+                self.try_pair(|s| s.bind_data(x, y, Area::Module, "trial"))
+            };
+            if ok {
+                out.push(x);
+            }
+        }
+        out
     }
 
     fn snapshot(&self) -> (Bij, Bij, Bij, Bij, Bij, Bij) {
